@@ -351,6 +351,43 @@ def check_scratch(run, repo, eff):
                           'ArmV6.%s can be read in a step before it is written in that step (`%s` in %s): the step then depends on '
                           'what was executed before, not only on the architectural state' % (a, txt, fn))
     run.floor('ArmV6 scratch attributes', len(scratch), 5)
+    # markers of Registers through which an opcode talks to the cycle driver (C20-S, second half): a boolean-typed attribute
+    # of Registers that the driver reads must be reset unconditionally before the opcode executes; otherwise what an earlier
+    # step left in it decides what a later step does, and two instances with equal architectural state diverge.
+    from .. import bookkeeping as bk
+    flags = bk.instruction_flags(repo)
+    rinit = repo.cls('Registers').methods.get('__init__')
+    markers = set()
+
+    def boolish(v):
+        if isinstance(v, ast.Constant) and isinstance(v.value, bool):
+            return True
+        if isinstance(v, ast.BinOp) and isinstance(v.op, ast.Mult) and isinstance(v.left, ast.List):
+            return all(boolish(x) for x in v.left.elts)
+        if isinstance(v, ast.List):
+            return bool(v.elts) and all(boolish(x) for x in v.elts)
+        return False
+    for n in ast.walk(rinit.node):
+        if isinstance(n, ast.Assign) and boolish(n.value):
+            for t in n.targets:
+                if isinstance(t, ast.Attribute) and ast.unparse(t.value) == 'self':
+                    markers.add(t.attr)
+    nread = 0
+    for cname, mname in sorted(bk.DRIVER):
+        fi = repo.method(cname, mname)
+        for node in ast.walk(fi.node):
+            if isinstance(node, ast.Attribute) and isinstance(node.ctx, ast.Load) and node.attr in markers \
+                    and ast.unparse(node.value) in ('self.registers', 'regs', 'registers'):
+                nread += 1
+                ok = node.attr in flags
+                run.instance('C20-S', 'Registers.%s read by %s' % (node.attr, mname), ok=ok,
+                             sample={'attribute': 'registers.' + node.attr, 'rule': 'reset unconditionally before the opcode executes'})
+                if not ok:
+                    run.violation('C20-S', fi.relpath, fi.qualname, 'stale registers.' + node.attr,
+                                  'the cycle driver reads registers.%s, which is not reset unconditionally before the opcode '
+                                  'executes: a value left by an earlier instruction decides what this step does, so the step '
+                                  'depends on history and not only on the architectural state' % node.attr)
+    run.floor('driver reads of Registers markers', nread, 2)
     return attrs
 
 
